@@ -528,6 +528,28 @@ def apply_rewrite_all(piece, src, start, end, sections):
         for mm in ms:
             piece.replace(mm.start(), mm.end(), mm.expand(v.strip('\n')), 'M3:rewrite /%s/' % rx.pattern)
 
+
+def clap_range(relfile, struct, field, expr):
+    """`@@CLAP_RANGE(file, Struct.field, expr)@@`: the value range clap enforces for a field, read from the
+    `value_parser = ... .range(a..=b)` attribute text of the field in the current source; expands to a Verus
+    boolean over `expr` (`true` when the attribute has no range)."""
+    src = Source(relfile)
+    s, e = find_struct(src, struct)
+    text = src.text[s:e]
+    m = re.search(r'((?:\s*#\[[^\n]*\]\s*\n|\s*///[^\n]*\n)*)\s*pub\s+%s\s*:' % re.escape(field), text)
+    if not m:
+        raise LostAnchor('clap range: field %s.%s not found' % (struct, field))
+    attrs = m.group(1)
+    r = re.search(r'\.range\(\s*(\d*)\s*\.\.(=?)\s*(\d*)\s*\)', attrs)
+    if not r:
+        return 'true'
+    parts = []
+    if r.group(1):
+        parts.append('%s <= %s' % (r.group(1), expr))
+    if r.group(3):
+        parts.append('%s %s %s' % (expr, '<=' if r.group(2) else '<', r.group(3)))
+    return '(' + ' && '.join(parts or ['true']) + ')'
+
 # --------------------------------------------------------------------------
 # directive parsing
 # --------------------------------------------------------------------------
@@ -964,6 +986,9 @@ def build_unit(template_path, out_path, report_path, defines=None):
     def cond(m):
         return m.group(2) if m.group(1) in defines else ''
     text = re.sub(r'^[ \t]*//@if (\w+)[ \t]*\n(.*?)^[ \t]*//@endif[ \t]*$', cond, text, flags=re.M | re.S)
+    def clap(m):
+        return clap_range(m.group(1).strip(), m.group(2).strip().split('.')[0], m.group(2).strip().split('.')[1], m.group(3).strip())
+    text = re.sub(r'@@CLAP_RANGE\(([^,]+),([^,]+),([^)]+)\)@@', clap, text)
     report = []
     out = []
     for ch in parse_template(text):
